@@ -12,9 +12,10 @@ Result: `log;f=focus;p=path;x=flags;q=returned`. -/
 namespace VaxisModel.Driver.C15Run
 open VaxisModel.Driver VaxisModel.Driver.C15 VaxisModel.Model.Vxfw VaxisModel.Spec.Routing
 
-def runStr (s : St) : String :=
+def runStr (s : St) (err : Bool := false) : String :=
   let st := if s.stuck then ";stuck" else ""
-  s!"{logOf s.trace};f={s.focused};p={joinOr (s.path.map toString)};x={flagsOf s};q={b01 s.quit}{st}"
+  let e := if err then ";e=1" else ""
+  s!"{logOf s.trace};f={s.focused};p={joinOr (s.path.map toString)};x={flagsOf s};q={b01 (s.quit || err)}{e}{st}"
 
 /-- Hover bookkeeping that names the offending widget and resynchronises. -/
 def hoverScan : List Nat → List Entry → List Nat × Option (Nat × String)
@@ -53,11 +54,12 @@ def flagChecks (prevX : List Bool) (atoms : List Atom) (now : Impl) (resetRedraw
   else if !resetRedraw && get 1 now.x != want 1 [.refresh] then some "FAIL commands: refresh flag wrong"
   else if get 2 now.x != want 2 [.quit] then some "FAIL commands: quit flag wrong"
   else if !resetRedraw && get 4 now.x != want 4 [.debug] then some "FAIL commands: debug flag wrong"
-  else if now.q != get 2 now.x then some "FAIL quit: Run returned iff quit flag — violated"
+  else if now.q != (get 2 now.x || now.e) then some "FAIL quit: Run returned iff quit flag or error — violated"
   else none
 
-def focusChecks (prevF : Nat) (script : List Cmd) (now : Impl) : Option String :=
-  let tr := implTrace script now.log
+def focusChecks (prevF : Nat) (script : List Cmd) (now : Impl) (fails : List Bool := []) : Option String :=
+  let tr := implTrace script (dropFailedFocusOut fails now.log)
+  if now.e then none else
   match focusRun prevF false tr with
   | some f' => if some f' = now.f then none
                else some s!"FAIL focus: last FocusIn went to {f'} but focused widget is {now.f.getD 0}"
@@ -66,8 +68,9 @@ def focusChecks (prevF : Nat) (script : List Cmd) (now : Impl) : Option String :
     then some "FAIL focus-balance: a FocusOut handler returned a focus command; FocusOut/FocusIn no longer pair up"
     else some "FAIL focus-balance: FocusOut/FocusIn notifications do not pair up"
 
-/-- After a step: clear `consume` if the sentinel was dispatched. -/
-def afterSentinel (s : St) (always : Bool) : St :=
+/-- After a step: clear `consume` if the sentinel was dispatched (not after a returned error). -/
+def afterSentinel (s : St) (always : Bool) (err : Bool := false) : St :=
+  if err then s else
   if always || !s.quit then { s with consume := false } else s
 
 /-- Hover verdict of one op. `expected` = the widgets that must be entered after the op when the
@@ -86,8 +89,8 @@ def hoverVerdict (hov : List Nat) (hv : Option (Nat × String)) (expected : Opti
 def stepEv (d : RS) (toks : Toks) (impl : String) : Option (RS × String) := do
   let now ← parseImpl impl
   let pf := d.prev.f.getD 0
-  let finish (d : RS) (m : St) (msgs : List (Option String)) : RS × String :=
-    ({ d with model := m, prev := now, done := now.q }, s!"{runStr m}\t{impl}\t{firstMsg msgs}")
+  let finish (d : RS) (m : St) (msgs : List (Option String)) (err : Bool := false) : RS × String :=
+    ({ d with model := m, prev := now, done := now.q }, s!"{runStr m err}\t{impl}\t{firstMsg msgs}")
   match toks with
   | "resize" :: _ | "redrawev" :: _ =>
     let m := afterSentinel (runEvent (mkOracle d.caps []) fuelDefault (fresh d.model) .resize) false
@@ -102,14 +105,21 @@ def stepEv (d : RS) (toks : Toks) (impl : String) : Option (RS × String) := do
       | "focusin", r => some (RunEv.focusIn, r)
       | "focusout", r => some (RunEv.focusOut, r)
       | _, _ => none)
-    let (script, _) ← pScript rest
-    let o := mkOracle d.caps script
-    let m := afterSentinel (runEvent o fuelDefault (fresh d.model) ev) false
+    let (script, fails, _) ← pScriptE rest
+    let eo := mkEOracle d.caps script fails
+    let o := eo.o
+    let (m0, merr) := eRunEvent eo fuelDefault (fresh d.model) ev
+    let m := afterSentinel m0 false merr
     let tr := implTrace script now.log
     let atoms := executedAtoms script now.log
     let (hov, hv) := hoverScan d.hover tr
-    let fmsg := focusChecks pf script now
-    let cmsg := flagChecks d.prev.x atoms now false
+    let fmsg := focusChecks pf script now fails
+    let cmsg := (errChecks fails now).orElse fun _ => flagChecks d.prev.x atoms now false
+    if now.e then
+      -- Run returned a handler's error: judged by errChecks (last thing = the failing call) and the flags
+      let (hm, hov') := hoverVerdict hov hv none
+      pure (finish { d with hover := hov' } m [cmsg, hm] merr)
+    else
     match ev with
     | .key _ | .other _ =>
       let e : Ev := match ev with | .key k => .key k | .other k => .custom k | _ => .init
@@ -151,9 +161,10 @@ def stepEv (d : RS) (toks : Toks) (impl : String) : Option (RS × String) := do
 def stepFrame (d : RS) (rest : Toks) (impl : String) : Option (RS × String) := do
   let (t1, rest) ← pTreeKw "T" rest
   let (t2, rest) ← pTreeKw "T" rest
-  let (script, _) ← pScript rest
-  let o := mkOracle d.caps script
-  let m := afterSentinel (runFrame o fuelDefault (fresh d.model) t1 t2) true
+  let (script, fails, _) ← pScriptE rest
+  let eo := mkEOracle d.caps script fails
+  let (m0, merr) := eRunFrame eo fuelDefault (fresh d.model) t1 t2
+  let m := afterSentinel m0 true merr
   let now ← parseImpl impl
   let pf := d.prev.f.getD 0
   let tr := implTrace script now.log
@@ -171,9 +182,13 @@ def stepFrame (d : RS) (rest : Toks) (impl : String) : Option (RS × String) := 
   let gh := d.ghost && d.pointer.isNone
   -- path after the frame: the drawn chain, in the frame just rendered, of the widget focused at the end
   let pathMsg := pinvMsg d.root sorted now
-  let fmsg := focusChecks pf script now
-  let cmsg := flagChecks d.prev.x (executedAtoms script now.log) now true
+  let fmsg := focusChecks pf script now fails
+  let cmsg := (errChecks fails now).orElse fun _ => flagChecks d.prev.x (executedAtoms script now.log) now true
   let drawMsg := if draws = 0 then some "FAIL frame: no layout" else none
+  if now.e then
+    pure ({ d with model := m, prev := now, done := now.q, hover := hov },
+      s!"{runStr m merr}\t{impl}\t{firstMsg [drawMsg, cmsg, (hoverVerdict hov hv none).1]}")
+  else
   pure ({ d with model := m, prev := now, done := now.q, lastTree := sorted, frameTree := sorted, hover := hov',
                  ghost := gh },
     s!"{runStr m}\t{impl}\t{firstMsg [drawMsg, cmsg, pathMsg, hm, fmsg]}")
@@ -184,18 +199,19 @@ def stepInit (rest : Toks) (impl : String) : Option (RS × String) := do
   let caps := (rest.take ncap).filterMap (·.toNat?)
   let rest := rest.drop (ncap + 1)
   let (t, rest) ← pTreeKw "T" rest
-  let (script, _) ← pScript rest
-  let o := mkOracle caps script
-  let s0 := runInit o fuelDefault root t
-  let m := afterSentinel (runEvent o fuelDefault s0 .resize) false
+  let (script, fails, _) ← pScriptE rest
+  let eo := mkEOracle caps script fails
+  let o := eo.o
+  let (s0, ierr) := eRunInit eo fuelDefault root t
+  let m := if ierr then s0 else afterSentinel (runEvent o fuelDefault s0 .resize) false
   let now ← parseImpl impl
   let tr := implTrace script now.log
   let c1 := conforms .init root (planOf o.captures [root] .focusTgt) (tr.filter (· != .draw))
-  let routeMsg := if c1 then none else some "FAIL routing: Init not offered capture/target to the root"
-  let fmsg := focusChecks root script now
+  let routeMsg := if c1 || now.e then none else some "FAIL routing: Init not offered capture/target to the root"
+  let fmsg := (errChecks fails now).orElse fun _ => focusChecks root script now fails
   let d : RS := { ok := true, caps, root, model := m, prev := now, lastTree := .node root 0 0 [], frameTree := t,
                   done := now.q }
-  pure (d, s!"{runStr m}\t{impl}\t{firstMsg [routeMsg, fmsg]}")
+  pure (d, s!"{runStr m ierr}\t{impl}\t{firstMsg [routeMsg, fmsg]}")
 
 def step (d : RS) (line : String) : RS × String :=
   let (op, impl) := splitTab line
